@@ -176,7 +176,7 @@ class FSA:
         return self._in_dict
 
     def has_edge(self, tail, head):
-        return len(self._out_dict[tail][head]) > 0
+        return len(self._out_dict[tail].get(head, [])) > 0
 
     def edges_out(self, vertex):
         """Get the list of edges directed away from a vertex.
@@ -206,7 +206,7 @@ class FSA:
         edge between `tail` and `head`.
 
         """
-        if len(self._out_dict[tail][head]) == 1:
+        if len(self._out_dict[tail].get(head, [])) == 1:
             return self._out_dict[tail][head][0]
         else:
             raise ValueError("ambiguous edge specification: there is not exactly"
@@ -217,7 +217,7 @@ class FSA:
         and `head`.
 
         """
-        return self._out_dict[tail][head]
+        return self._out_dict[tail].get(head, [])
 
     def add_vertices(self, vertices):
         """Add vertices to the FSA.
